@@ -74,9 +74,31 @@ static void build_exprs()
        { return R(1) - x; }},
   };
 }
+// expressions over a slack variable s defined through the public lra_theory::new_var(x + y + 3): its tableau row
+// has a constant term (rows created by relation requests never have one)
+static lin g_s;
+static std::vector<Expr> EXS;
+static void build_slack_exprs()
+{
+  auto R = [](long n, long d = 1)
+  { return rational(n, d); };
+  EXS = {
+      {"s", 1, 1, 3, [=](const lin &, const lin &)
+       { return g_s; }},
+      {"2*s", 2, 2, 6, [=](const lin &, const lin &)
+       { return g_s * R(2); }},
+      {"s-x", 0, 1, 3, [=](const lin &x, const lin &)
+       { return g_s - x; }},
+      {"s+1", 1, 1, 4, [=](const lin &, const lin &)
+       { return g_s + R(1); }},
+  };
+}
 static const Expr *expr_by_name(const std::string &n)
 {
   for (auto &e : EX)
+    if (n == e.name)
+      return &e;
+  for (auto &e : EXS)
     if (n == e.name)
       return &e;
   return nullptr;
@@ -103,6 +125,7 @@ struct Prelude
 {
   const char *name;
   std::vector<Req> cs; // root constraints, asserted in order (each followed by propagate)
+  bool slack = false;  // s = new_var(x + y + 3) is created first
 };
 static std::vector<Prelude> PRE;
 static void build_preludes()
@@ -118,6 +141,8 @@ static void build_preludes()
       {"P5", {{E("x+y"), 3, E("1")}}},                       // value 0 violates it: forces a pivot, x becomes basic
       {"P6", {{E("x+y"), 3, E("1")}, {E("x-y"), 1, E("0")}}}, // two pivots
       {"P7", {{E("x"), 4, E("0")}, {E("y"), 0, E("1")}}},     // strict root bounds
+      {"PS0", {}, true},                                       // s is basic, its row has the constant 3
+      {"PS1", {{E("s"), 1, E("1")}}, true},                    // value 3 violates it: a pivot makes x or y basic, with a constant in its row
   };
 }
 static const Prelude *pre_by_name(const std::string &n)
@@ -248,6 +273,8 @@ static void run_lra_case(const LraCase &c, const std::string &txt)
       sat_core sat;
       lra_theory th(sat);
       var x = th.new_var(), y = th.new_var();
+      if (c.pre->slack)
+        g_s = lin(th.new_var(lin(x, rational::ONE) + lin(y, rational::ONE) + lin(rational(3))), rational::ONE);
       bool ok = true;
       for (auto &q : c.pre->cs)
         ok = ok && assert_root(sat, th, q, x, y);
@@ -830,7 +857,17 @@ struct UnitSpec
   int first_l; // index of the left expression of the first request
   bool pairs;
   bool mids;
+  bool slack = false; // expressions are taken from the slack pool
 };
+static std::vector<const Expr *> slack_pool()
+{
+  std::vector<const Expr *> v;
+  for (auto &e : EXS)
+    v.push_back(&e);
+  for (const char *n : {"x", "y", "x+y", "1", "0", "x-y"})
+    v.push_back(expr_by_name(n));
+  return v;
+}
 static std::vector<UnitSpec> Units;
 static size_t g_nexpr = 0; // how many expressions of EX are used
 
@@ -866,6 +903,45 @@ static void run_unit(uint64_t u)
     if ((cases & 0x3ff) == 1)
       vf::sample(txt);
   };
+  if (U.slack)
+  {
+    auto pool = slack_pool();
+    const Expr *l = pool[U.first_l];
+    for (auto r : pool)
+      for (int rel = 0; rel < 5; ++rel)
+      {
+        if (l->name[0] != 's' && l->name[0] != '2' && r->name[0] != 's' && r->name[0] != '2')
+          continue; // the slack has to occur
+        LraCase c;
+        c.pre = &PRE[U.pre];
+        c.reqs.push_back(Req{l, rel, r});
+        go(c);
+        for (int mid : {-1, 9})
+        {
+          if (mid == U.pre)
+            continue;
+          for (auto &q2 : related(c.reqs[0]))
+          {
+            LraCase c2 = c;
+            c2.mid = mid;
+            c2.reqs.push_back(q2);
+            go(c2);
+          }
+          for (const char *a : {"s", "x", "x+y"})
+            for (const char *b : {"1", "y"})
+              for (int rel2 : {1, 4})
+              {
+                LraCase c2 = c;
+                c2.mid = mid;
+                c2.reqs.push_back(Req{expr_by_name(a), rel2, expr_by_name(b)});
+                go(c2);
+              }
+        }
+      }
+    vf::count("cases", cases);
+    vf::count("replays", g_replays);
+    return;
+  }
   const Expr *l = &EX[U.first_l];
   for (size_t ri = 0; ri < g_nexpr; ++ri)
     for (int rel = 0; rel < 5; ++rel)
@@ -908,6 +984,7 @@ int main(int argc, char **argv)
 {
   vf::Args args(argc, argv);
   build_exprs();
+  build_slack_exprs();
   build_preludes();
   std::string tier = args.get("tier", "quick");
   std::string prop = args.get("prop", "C11");
@@ -975,8 +1052,12 @@ int main(int argc, char **argv)
   bool th = tier == "thorough";
   g_nexpr = th ? EX.size() : 12;
   for (size_t p = 0; p < PRE.size(); ++p)
-    for (size_t l = 0; l < g_nexpr; ++l)
-      Units.push_back(UnitSpec{(int)p, (int)l, th || p < 6, th});
+    if (PRE[p].slack)
+      for (size_t l = 0; l < slack_pool().size(); ++l)
+        Units.push_back(UnitSpec{(int)p, (int)l, true, false, true});
+    else
+      for (size_t l = 0; l < g_nexpr; ++l)
+        Units.push_back(UnitSpec{(int)p, (int)l, th || p < 6, th});
   vf::Options opt;
   opt.jobs = (int)args.num("jobs", 16);
   opt.batch = 1;
